@@ -392,6 +392,10 @@ class Interp:
                                 return self.eval_in_module(k.module, dv)
                             break
                         return self.eval_in_module(k.module, st.value)
+            ga = base.cls.lookup("__getattr__")
+            if ga is not None and not (self.func is ga and self.env.get(ga.self_name) is base):
+                # the class's own fallback for names that are not found the ordinary way
+                return self.call_func(ga, [attr], {}, node, self_obj=base)
             raise Undecided(f"attribute {attr} of {base.cls.name} object unknown")
         if isinstance(base, Class):
             ca = base.class_assigns()
